@@ -221,6 +221,10 @@ impl<C: Config> DirtyWorker<C> {
             // every 16 edges, yield to allow other tasks to run
             if counter >= 16 {
                 counter = 0;
+
+                #[cfg(feature = "verif")]
+                qbice_storage::verif::yield_point("pre:dirty:edge_yield").await;
+
                 tokio::task::yield_now().await;
             }
 
@@ -306,6 +310,9 @@ impl<C: Config> Engine<C> {
         }
 
         drop(batch);
+
+        #[cfg(feature = "verif")]
+        qbice_storage::verif::yield_point("pre:dirty:wait_all").await;
 
         // wait for all tasks to complete
         notified.await;
